@@ -349,7 +349,7 @@ class Report:
 
 # Modules that hold only proof obligations about numbers/shapes extracted from the source (T1). The driver does not
 # import them, so a source change that breaks one of them breaks only the property that owns it.
-OBLIGATION_MODULES = {"VersionThm": "C15", "ArgsGen": "C11", "Limits": "C12", "DetGen": "C13", "OptGen": "C07", "CmapGen": "C17", "WritesGen": "C12"}
+OBLIGATION_MODULES = {"VersionThm": "C15", "ArgsGen": "C11", "Limits": "C12", "DetGen": "C13", "OptGen": "C07", "CmapGen": "C17", "WritesGen": "C12", "WritersGen": "C03"}
 
 
 def lean_modules(pid):
@@ -366,7 +366,7 @@ def lean_modules(pid):
     return sorted(mods)
 
 
-def lean_gate(report, theorems, uses_tables=False, uses_args=False, uses_det=False, uses_opt=False, uses_cmap=False, uses_writes=False):
+def lean_gate(report, theorems, uses_tables=False, uses_args=False, uses_det=False, uses_opt=False, uses_cmap=False, uses_writes=False, uses_writers=False):
     """Common proof gate: regenerate tables from the source (T1), forbid sorry etc., lake build, audit axioms.
     Returns True if the proof side is intact. Records violations (no-failing-input-found) otherwise."""
     import extract_tables
@@ -433,6 +433,17 @@ def lean_gate(report, theorems, uses_tables=False, uses_args=False, uses_det=Fal
         report.coverage["write_census_regenerated_from_source"] = False
         if uses_writes:
             report.violation("extract-writes", {"broken": "T1 census of the narrowing writes of OutputToFont.cpp failed: %s" % e},
+                             no_failing_input=True)
+    import extract_writers
+    try:
+        with Lock(os.path.join(SCRATCH_ROOT, ".lake.lock")):
+            report.writer_consts = extract_writers.main()
+        report.coverage["writer_consts_regenerated_from_source"] = True
+    except extract_tables.ExtractError as e:
+        report.writer_consts = None
+        report.coverage["writer_consts_regenerated_from_source"] = False
+        if uses_writers:
+            report.violation("extract-writers", {"broken": "T1 extraction of BinarySearchConstants / the big-endian writers failed: %s" % e},
                              no_failing_input=True)
     hits = lean_grep_forbidden()
     mods = lean_modules(report.pid)
